@@ -85,6 +85,31 @@ def gen(rng, k, tier, sms):
     return sc
 
 
+def gen_failing_history(rng, k, sms):
+    """2-3 calls on ONE pool, each failing in its own way: every call must raise ITS OWN exception"""
+    sm = sms[k % len(sms)]
+    pool = {'n_jobs': rng.choice([1, 2, 3]), 'start_method': sm, 'use_dill': rng.random() < 0.3, 'keep_alive': rng.random() < 0.5}
+    calls, behaviour, shapes = [], {'task': []}, []
+    easy = ['ValueError', 'CustomError', 'AttrError', 'BaseExc', 'NestedArgs', 'SlowPickle', 'SlowPickle']
+    for j in range(rng.choice([2, 2, 3])):
+        base = 1000 * (j + 1)
+        n = rng.choice([2, 5, 9])
+        call = {'kind': rng.choice(['map', 'map_unordered', 'imap', 'imap_unordered']), 'n': n, 'input': 'list', 'elem': 'scalar',
+                'params': {'chunk_size': rng.choice([1, 2])}, 'base': base, 'init': False, 'exit': False}
+        where = rng.choice(['init', 'init', 'task', 'exit'])
+        sh = rng.choice(easy)
+        shapes.append(sh)
+        if where == 'task':
+            behaviour['task'].append({'at': base + rng.randrange(n), 'do': 'raise', 'exc': sh})
+        else:
+            call[where] = True
+            call[where + '_raises'] = [sh, base + (777 if where == 'init' else 888)]
+        call['where'] = where
+        calls.append(call)
+    return {'id': f'xh{k}', 'pool': pool, 'calls': calls, 'budget': 75, 'behaviour': behaviour, 'shapes': sorted(set(shapes)),
+            'where': 'history'}
+
+
 def gen_apply(rng, k, sms):
     sm = sms[k % len(sms)]
     pool = {'n_jobs': rng.choice([1, 2, 3]), 'start_method': sm, 'use_dill': rng.random() < 0.4}
@@ -124,7 +149,7 @@ def match(exc, tr, use_dill, shape, key):
 def _args_for(shape, key):
     return {'ValueError': repr(('boom', key)), 'CustomError': repr(('custom', key)), 'AttrError': repr(('with attrs',)),
             'SystemExit': repr((3,)), 'KeyboardInterrupt': repr(()), 'Cancelled': repr(('cancelled', key)),
-            'BaseExc': repr(('base', key)), 'Unpicklable': repr(('holds a lock',)), 'LambdaAttr': repr(('holds a lambda',)),
+            'SlowPickle': f'(SlowArg({key}),)', 'BaseExc': repr(('base', key)), 'Unpicklable': repr(('holds a lock',)), 'LambdaAttr': repr(('holds a lambda',)),
             'LocalClass': repr(('local', key)), 'NestedArgs': repr(({'k': [key, (1, 2)]}, 'x' * 50, key))}[shape]
 
 
@@ -133,8 +158,36 @@ def _repr_for(shape, key, row):
     return row['repr'].replace("'local', 0", f"'local', {key}")
 
 
+def oracle_history(rec):
+    res, sc = rec['result'], rec['scenario']
+    tr = res.get('transport', {})
+    use_dill = sc['pool'].get('use_dill', False) and sc['pool']['start_method'] != 'threading'
+    raised_all = [(e['exc'], e['key'], e.get('phase')) for e in runner.all_events(rec, 'raised')]
+    for c, o in zip(sc['calls'], res['calls']):
+        mine = [r for r in raised_all if c['base'] <= r[1] < c['base'] + 1000]
+        if o.get('outcome') != 'exc':
+            if mine:
+                return f"history: call base={c['base']}: user functions raised {mine[:2]} but the call returned"
+            # the failing function was never reached (e.g. worker_exit of kept-alive workers runs later)
+            msg = S.check_value(c, o)
+            if msg:
+                return f"history: call base={c['base']}: {msg}"
+            continue
+        exc = o['exc']
+        if not any(match(exc, tr, use_dill, sh, key) for sh, key, _ in mine):
+            other = [r for r in raised_all if match(exc, tr, use_dill, r[0], r[1])]
+            return (f"history: call base={c['base']} raised {exc['type']}{exc['args'][:120]} which none of ITS user functions raised "
+                    f"(they raised {mine[:3]}); it matches {other[:2]} raised in another call of this pool" if other else
+                    f"history: call base={c['base']} raised {exc['type']}{exc['args'][:120]} which matches nothing its user functions raised: {mine[:3]}")
+        if o['wall'] > LIMIT[sc['pool']['start_method']]:
+            return f"history: call base={c['base']} took {o['wall']:.1f}s to raise"
+    return None
+
+
 def oracle(rec):
     res, sc = rec['result'], rec['scenario']
+    if sc.get('where') == 'history':
+        return oracle_history(rec)
     call, out = sc['calls'][0], res['calls'][0]
     tr = res.get('transport', {})
     # the threading backend always transports through the standard (pickle) queues
@@ -204,7 +257,7 @@ def oracle(rec):
 def analyse(recs):
     bad, hangs = [], []
     for rec in recs:
-        if rec['status'] != 'done' or not rec['result'] or not rec['result']['calls']:
+        if rec['status'] != 'done' or not rec['result'] or len(rec['result']['calls']) < len(rec['scenario']['calls']):
             hangs.append(rec)
             continue
         if 'pool_exc' in rec['result']:
@@ -224,6 +277,7 @@ def run(ctx):
     sms = ['fork', 'fork', 'fork', 'threading', 'forkserver', 'spawn'] if quick else ['fork', 'fork', 'threading', 'forkserver', 'spawn']
     scens = [gen(rng, k, ctx['tier'], sms) for k in range(72 if quick else 700)]
     scens += [gen_apply(rng, k, sms) for k in range(10 if quick else 80)]
+    scens += [gen_failing_history(rng, k, ['fork', 'threading', 'threading', 'fork', 'forkserver', 'spawn']) for k in range(24 if quick else 200)]
     recs = runner.run_many(scens, 'c04', jobs=10)
     bad, hangs = analyse(recs)
     out_v = []
@@ -252,6 +306,8 @@ def run(ctx):
         dist['start:' + sc['pool']['start_method']] = dist.get('start:' + sc['pool']['start_method'], 0) + 1
         dist['use_dill:' + str(sc['pool'].get('use_dill', False))] = dist.get('use_dill:' + str(sc['pool'].get('use_dill', False)), 0) + 1
         dist['kind:' + sc['calls'][0]['kind']] = dist.get('kind:' + sc['calls'][0]['kind'], 0) + 1
+        if sc['where'] == 'history':
+            dist['history_calls:' + str(len(sc['calls']))] = dist.get('history_calls:' + str(len(sc['calls'])), 0) + 1
     outcomes = {}
     for r in recs:
         if r['status'] == 'done' and r['result'] and r['result']['calls']:
@@ -265,7 +321,8 @@ def run(ctx):
                     "locally defined class) x use_dill x 4 start methods x chunking / lifespan / max_tasks_active; oracle: the call raises, "
                     "within seconds, an exception matching (type, args, attribute names) one the user functions logged as raised in this "
                     "call -- or CannotPickleExceptionError carrying its repr when the pool's pickler cannot dump it (decided without "
-                    "mpire) -- with the worker traceback and failing arguments as cause; values yielded before are correct",
+                    "mpire) -- with the worker traceback and failing arguments as cause; values yielded before are correct; plus histories "
+                    "of 2-3 failing calls on one pool (init / task / exit, slow-to-pickle exceptions): every call raises its OWN exception",
                samples=[dict(scenario=recs[0]['scenario'])], distribution=dist, outcomes=outcomes,
                oracle_failures=len(bad), unfinished=len(hangs))
     return dict(proof=proof, violations=out_v, broken_obligation=proof['failed_obligation'], coverage=cov, wall_s=time.time() - t0)
